@@ -359,16 +359,27 @@ class Run:
                     self.model.classes.add('foreign-remaster/small-in-record-budget')
             else:
                 self.model.classes.add('foreign-remaster-ineligible')
-        new = open_image(img)
+        if op.get('same'):
+            # the same object again: close() "makes the object ready for another ISO"
+            self.model.classes.add('reopen-same-object')
+            try:
+                self.iso.close()
+                self.iso.open_fp(io.BytesIO(img))
+                new = self.iso
+            except Exception as e:  # noqa
+                new = e
+        else:
+            new = open_image(img)
         if isinstance(new, Exception):
             self.problem('reopen/exception/%s' % exc_signature(new), 'reopen-raised',
                          'open_fp of the library\'s own output raised %s: %s' % (type(new).__name__, new))
             self.dead = True
             return 'dead'
-        try:
-            self.iso.close()
-        except Exception:
-            pass
+        if new is not self.iso:
+            try:
+                self.iso.close()
+            except Exception:
+                pass
         self.iso = new
         self.model.generation += 1
         self.model.on_reopen()
